@@ -694,7 +694,10 @@ class HistGen:
                 x = rng.choice(cand) if cand else rid(rng, cfg)
             else:
                 x = rid(rng, cfg)
-            calls.append(f'ge:{show(self.arg(q))}:{x}')
+            # a NOT-fresh variable is only tried on a plain argument: under notation the answer of
+            # Instantiate.evar_is_free is defect D3 (C06/C07/C12), not this component's subject
+            fresh_here = q[0] == 'i' and e_fresh(q[2], x)
+            calls.append(f'ge:{show(self.arg(q) if fresh_here else q)}:{x}')
             if top and top[0] == 'T' and q[0] == 'i' and e_fresh(q[2], x):
                 st[-1] = ('T', ('i', ('x', x, q[1]), q[2]))
         elif m == 'pop':
